@@ -804,6 +804,12 @@ func run(c *vk.Ctx) {
 			})
 			execs += st.Executions
 			points += st.Points
+			if st.Diverged > 0 {
+				finished = false
+				c.Cap("replay divergence (choice outside the explorer's control) in " + sc.Name)
+				c.Count("diverged_subtrees["+sc.Name+"]", st.Diverged)
+				c.Sample(map[string]any{"divergence": st.FirstDivergence})
+			}
 			if finished {
 				completed[sc.Name] = b
 			}
